@@ -26,6 +26,10 @@ for q in cons:
         print(f'{q}: OUT OF SUBSET: {e}')
     except Exception:
         traceback.print_exc()
+if eng.lemmas and not filt:
+    lo = eng.generate_lemmas(modname, eng.lemmas)
+    print(f'lemmas: {len(lo)}')
+    allobl += lo
 t0 = time.time()
 res = solve.discharge(allobl, timeout_ms=int(__import__('os').environ.get('TO', '10000')))
 bad = 0
